@@ -4,6 +4,7 @@ CONSTANTS
   MaxSize = 60
   OpsUniverse <- U_ops
   Mirror = FALSE
+  ShareMemo = FALSE
   MaxOps = 0
   ViewUniverse <- U_views_quick
   NumTrees = 3
